@@ -8,15 +8,18 @@ class C10(Spec):
     lean_deps = ("C09",)
     required_theorems = (
         "C10.single_op_per_key_refines", "C10.single_op_per_key_keeps_shape", "C10.listIndex_exact",
+        "C10.multi_op_refines_partial",
         "C10.multi_op_refines_full_false_a", "C10.multi_op_refines_full_false_b", "C10.multi_op_refines_full_false_c",
     )
-    partial = ("C10.single_op_per_key_refines",)
+    partial = ("C10.multi_op_refines_partial",)
     refuted = ("C10.multi_op_refines_full_false_a", "C10.multi_op_refines_full_false_b", "C10.multi_op_refines_full_false_c")
     level_text = ("Lean theorems about a model of the table row cache (rows / rowmap with the in-place mutations of the Go code), "
                   "Save (saveRow, addRow, delRow, updateRow, getModify, DelDupKey) and Query.ListIndex over the ordered store: if "
                   "each primary key is touched at most once between saves the table answers exactly like a map (Add fails iff "
                   "present, Update/Del iff absent) and Save brings the db to the encoding of the map - data records and every "
-                  "index, no stale and no missing entry - and keeps it well shaped; on such a db ListIndex(index, value) returns "
+                  "index, no stale and no missing entry - and keeps it well shaped; the same holds for several operations per key before "
+                  "one save as long as, for a key stored at the last save, nothing follows a buffered Del and no Del follows a "
+                  "buffered Update/Replace (GoodRun, a condition on the sequence only; simulation invariant over the row cache); on such a db ListIndex(index, value) returns "
                   "exactly the present rows with that value. The full statement (several operations per key before one save) is "
                   "refuted on three concrete witnesses (Del;Add / Del;Replace / Update;Del) that are replayed on the real code "
                   "(corpus/C10). The model is tied to common/db/table over goleveldb and memdb by an exact differential run "
